@@ -86,7 +86,7 @@ theorem pop_idle {k : Keys} (h : k.pending = 0) : k.pop = k := by
 /-- the end of `MatchMain`, from the keys read by the dispatcher and the multibyte fallback -/
 def mainTailF (e1 : Eng) (bind1 : Bind) (pfx1 : Bool) (read : Seq) : Eng × Bind × Bool × Bool :=
   let e2' : Eng := { e1 with keys := if pfx1 then e1.keys.matchedPrefix read else e1.keys.matchedKeys read [] }
-  let (e2, bind, pfx) := nonIncOverride e2' bind1 pfx1
+  let (e2, bind, pfx) := nonIncOverrideR e2' bind1 pfx1 read
   if isEscapeKey e2 && !e2.isEmacs && pfx then
     let b := if e2.prefixed.action = "vi-movement-mode" then e2.prefixed else Bind.none
     let e3 := { e2 with prefixed := Bind.none, keys := e2.keys.popForce }
@@ -101,18 +101,25 @@ theorem matchMain_eq (e : Eng) : matchMain e =
   unfold matchMain mainTailF
   rfl
 
-theorem nonIncOverride_spec (e : Eng) (b : Bind) (p : Bool) :
+theorem nonIncOverride_spec0 (e : Eng) (b : Bind) (p : Bool) :
     (nonIncOverride e b p).1.keys = e.keys ∧ ((nonIncOverride e b p).2.2 = true → p = true) := by
   unfold nonIncOverride
   split <;> simp
+
+theorem nonIncOverride_spec (e : Eng) (b : Bind) (p : Bool) (rd : Seq) :
+    (nonIncOverrideR e b p rd).1.keys = e.keys ∧ ((nonIncOverrideR e b p rd).2.2 = true → p = true) := by
+  unfold nonIncOverrideR
+  split
+  · exact ⟨rfl, id⟩
+  · exact nonIncOverride_spec0 e b p
 
 theorem mainTailF_false (e1 : Eng) (bind1 : Bind) (read : Seq) :
     (mainTailF e1 bind1 false read).1.keys = e1.keys.matchedKeys read [] ∧
     (mainTailF e1 bind1 false read).2.2.2 = false := by
   unfold mainTailF
   simp only [Bool.false_eq_true, if_false]
-  obtain ⟨hk, hp⟩ := nonIncOverride_spec { e1 with keys := e1.keys.matchedKeys read [] } bind1 false
-  generalize nonIncOverride { e1 with keys := e1.keys.matchedKeys read [] } bind1 false = o at hk hp ⊢
+  obtain ⟨hk, hp⟩ := nonIncOverride_spec { e1 with keys := e1.keys.matchedKeys read [] } bind1 false read
+  generalize nonIncOverrideR { e1 with keys := e1.keys.matchedKeys read [] } bind1 false read = o at hk hp ⊢
   obtain ⟨e2, bind, pfx⟩ := o
   dsimp only at hk hp ⊢
   have hpf : pfx = false := by
@@ -128,8 +135,8 @@ theorem mainTailF_true (e1 : Eng) (bind1 : Bind) (read : Seq) :
       (mainTailF e1 bind1 true read).2.2.2 = false) := by
   unfold mainTailF
   simp only [if_true]
-  obtain ⟨hk, _⟩ := nonIncOverride_spec { e1 with keys := e1.keys.matchedPrefix read } bind1 true
-  generalize nonIncOverride { e1 with keys := e1.keys.matchedPrefix read } bind1 true = o at hk ⊢
+  obtain ⟨hk, _⟩ := nonIncOverride_spec { e1 with keys := e1.keys.matchedPrefix read } bind1 true read
+  generalize nonIncOverrideR { e1 with keys := e1.keys.matchedPrefix read } bind1 true read = o at hk ⊢
   obtain ⟨e2, bind, pfx⟩ := o
   dsimp only at hk ⊢
   split
@@ -435,17 +442,19 @@ end RLV
 
 namespace RLV
 
-theorem nonIncOverride_reg (e : Eng) (b : Bind) (p : Bool) :
-    (nonIncOverride e b p).1.registered = e.registered := by
-  unfold nonIncOverride
-  split <;> rfl
+theorem nonIncOverride_reg (e : Eng) (b : Bind) (p : Bool) (rd : Seq) :
+    (nonIncOverrideR e b p rd).1.registered = e.registered := by
+  unfold nonIncOverrideR nonIncOverride
+  split
+  · rfl
+  · split <;> rfl
 
 theorem mainTailF_reg (e1 : Eng) (bind1 : Bind) (pfx1 : Bool) (read : Seq) :
     (mainTailF e1 bind1 pfx1 read).1.registered = e1.registered := by
   unfold mainTailF
   dsimp only
-  have h := nonIncOverride_reg { e1 with keys := if pfx1 then e1.keys.matchedPrefix read else e1.keys.matchedKeys read [] } bind1 pfx1
-  generalize nonIncOverride { e1 with keys := if pfx1 then e1.keys.matchedPrefix read else e1.keys.matchedKeys read [] } bind1 pfx1 = o at h ⊢
+  have h := nonIncOverride_reg { e1 with keys := if pfx1 then e1.keys.matchedPrefix read else e1.keys.matchedKeys read [] } bind1 pfx1 read
+  generalize nonIncOverrideR { e1 with keys := if pfx1 then e1.keys.matchedPrefix read else e1.keys.matchedKeys read [] } bind1 pfx1 read = o at h ⊢
   obtain ⟨e2, bind, pfx⟩ := o
   dsimp only at h ⊢
   split <;> exact h
